@@ -525,6 +525,12 @@ def real_dict(ad, d):
     return out
 
 
+def self_ms(ad):
+    """number of leading gradient entries that belong to the model outputs' upstream parameters (error-model adapters)"""
+    ms = getattr(ad, 'ms', None)
+    return int(ms.shape[1]) if ms is not None else 0
+
+
 def replay_case(arg):
     rec, ai, seed = arg
     ad = get_adapter(ai)
@@ -598,6 +604,17 @@ def replay_case(arg):
                            if not np.array_equal(np.asarray(ref_, dtype=float), cp_, equal_nan=True)]
                 if changed:
                     fail('ResultsAreValues', '+'.join(changed), dict(note='an earlier result changed after a later evaluation'))
+            # lengths agree with the count the object reports NOW: one sensitivity column / gradient entry per free parameter
+            nfree_now = ad.nparams(obj)
+            for k_, a_ in got.items():
+                if not isinstance(a_, np.ndarray):
+                    continue
+                if k_.startswith('sens') and a_.ndim == 3 and a_.shape[-1] != nfree_now:
+                    fail('CountsOK', 'sensitivity_columns', dict(result=k_, got=int(a_.shape[-1]), n_parameters=nfree_now,
+                                                                 primed=primed))
+                elif k_ in ('s1', 's1_first') and a_.ndim == 1 and not isinstance(ad, CtrlAdapter) and \
+                        len(a_) != nfree_now + (self_ms(ad)):
+                    fail('CountsOK', 'gradient_length', dict(result=k_, got=len(a_), n_parameters=nfree_now, primed=primed))
             bad = [k for k in exp if k in got and not _cmp(got[k], exp[k])]
             missing = [k for k in exp if k not in got]
             if sib is not None:
